@@ -218,11 +218,46 @@ def known_findings():
     return []
 
 
+def register_found_overrides(repo):
+    """A contract with covers_overrides=True is used at every dynamically dispatched call, so EVERY override of the method
+    must satisfy it -- also one that the contracts do not list because it did not exist when they were written.  Each
+    override found in the current source that has no contract of its own under that key gets a copy of the base contract
+    (behavioural subtyping obligation), named `abs:<Class>.<method> (override found in the source)`."""
+    import copy
+    added = []
+    for key, cs in sorted(REG.contracts.items()):
+        for c in list(cs):
+            if not c.covers_overrides:
+                continue
+            mod, qual = key.split(':')
+            parts = qual.split('.')
+            base, meth = parts[0], '.'.join(parts[1:])
+            for k2, fi2 in sorted(repo.funcs.items()):
+                if k2 == key or fi2.cls is None or ':' not in k2:
+                    continue
+                q2 = k2.split(':')[1].split('.')
+                if '.'.join(q2[1:]) != meth or q2[0] == base:
+                    continue
+                try:
+                    sub = repo.is_subclass(q2[0], base)
+                except Exception:  # noqa
+                    sub = False
+                if not sub or k2 in REG.contracts:
+                    continue
+                c2 = copy.copy(c)
+                c2.key, c2.covers_overrides, c2.assumed = k2, False, False
+                c2.name = f'abs:{k2.split(":")[1]} (override found in the source)'
+                REG.contracts.setdefault(k2, []).append(c2)
+                added.append(k2)
+    return added
+
+
 def run(pid, tier, seed=0, jobs=None, only=None, verbose=False):
     global _REPO
     t0 = time.time()
     _REPO = Repo()
     load_contracts()
+    register_found_overrides(_REPO)
     timeout_ms = 10000 if tier == 'quick' else 60000
     tasks = []
     for key, cs in sorted(REG.contracts.items()):
